@@ -8,14 +8,16 @@ import driver as D
 sys.path.insert(0, os.path.join(D.VERIF, "irsym"))
 import irsym as I
 
-HERM = ["w_SymEigsSolver", "w_SymEigsShiftSolver", "w_HermEigsSolver"]
+HERM = ["w_SymEigsSolver", "w_SymEigsShiftSolver", "w_HermEigsSolver", "w_HermEigsBase_rvalue"]
 GEN = ["w_GenEigsSolver", "w_GenEigsRealShiftSolver", "w_GenEigsComplexShiftSolver"]
 NOT_ENCODED = ["w_SymGEigsSolver_Cholesky", "w_SymGEigsSolver_RegularInverse", "w_SymGEigsShiftSolver_ShiftInvert", "w_SymGEigsShiftSolver_Buckling", "w_SymGEigsShiftSolver_Cayley"]
 
 
 CTOR_EXPR = {"w_SymEigsSolver": "Spectra::SymEigsSolver<Op> e(op, nev, ncv)", "w_SymEigsShiftSolver": "Spectra::SymEigsShiftSolver<Op> e(op, nev, ncv, 0.5)",
              "w_HermEigsSolver": "Spectra::SymEigsSolver<Op> e(op, nev, ncv)", "w_GenEigsSolver": "Spectra::GenEigsSolver<Op> e(op, nev, ncv)",
-             "w_GenEigsRealShiftSolver": "Spectra::GenEigsRealShiftSolver<Op> e(op, nev, ncv, 0.5)", "w_GenEigsComplexShiftSolver": "Spectra::GenEigsComplexShiftSolver<Op> e(op, nev, ncv, 0.5, 0.5)"}
+             "w_GenEigsRealShiftSolver": "Spectra::GenEigsRealShiftSolver<Op> e(op, nev, ncv, 0.5)", "w_GenEigsComplexShiftSolver": "Spectra::GenEigsComplexShiftSolver<Op> e(op, nev, ncv, 0.5, 0.5)",
+             # the rvalue-operator constructor is replayed through a real generalized solver class (real std::vector, no stub)
+             "w_HermEigsBase_rvalue": "Op bop{n}; Spectra::SymGEigsSolver<Op, Op, Spectra::GEigsMode::RegularInverse> e(op, bop, nev, ncv)"}
 
 
 def native_replay(ctx, fn, n, nev, ncv):
